@@ -158,6 +158,40 @@ def addr(payload):
             l = M.Impedance_Load(1 + 0j)
             m.register_load(l)
             o['rel'] = rel; o['abs'] = ab; o['allobj'] = allobj; o['all'] = [int(q.idx) for q in l.pulses]
+            # the same addressing through the command line: several sources in mixed forms (a per-object one BEFORE an absolute
+            # one), the first load attached to all pulses of two objects by two options, a second load pulse by pulse
+            blocks = {int(g.tag): [int(p.idx) for p in g.pulses] for g in m.geo}
+            full = [t for t in tags if blocks[t]]
+            if n >= 3 and len(full) >= 2 and all(w.get('tag') is not None or not w.get('taper') for w in spec['wires']):
+                import io
+                ta, tb = rng.sample(full, 2)
+                k1 = rng.randrange(len(blocks[ta]))
+                pabs = rng.choice([p for p in range(n) if p != blocks[ta][k1]])
+                srcs = [dict(pulse=k1, tag=ta, v=[1.0, 0.0]), dict(pulse=pabs, tag=None, v=[0.5, 0.5])]
+                want_src = [blocks[ta][k1], pabs]
+                if rng.random() < 0.5:
+                    k2 = rng.randrange(len(blocks[tb]))
+                    if blocks[tb][k2] not in want_src:
+                        srcs.append(dict(pulse=k2, tag=tb, v=[0.0, 1.0])); want_src.append(blocks[tb][k2])
+                    p3 = rng.randrange(n)
+                    if p3 not in want_src:
+                        srcs.append(dict(pulse=p3, tag=None, v=[2.0, 0.0])); want_src.append(p3)
+                pl = rng.randrange(n)
+                loads = [dict(kind='imp', z=[7.0, 3.0], attach=[[None, ta], [None, tb]]),
+                         dict(kind='imp', z=[11.0, -5.0], attach=[[pl], [rng.randrange(len(blocks[tb])), tb]])]
+                want_l2 = sorted([pl, blocks[tb][loads[1]['attach'][1][0]]])
+                argv = gen.to_argv(dict(spec, sources=srcs, loads=loads))
+                mc = M.main(argv, f_err=io.StringIO(), return_mininec=True)
+                if not isinstance(mc, int):
+                    eff = {}
+                    for l_ in mc.loads:
+                        for q in l_.pulses:
+                            key = complex(l_.impedance(mc.f, q))
+                            eff.setdefault((key.real, key.imag), []).append(int(q.idx))
+                    o['cli'] = dict(argv=[a for a in argv if a.startswith(('--excitation-pulse', '--attach-load', '--load'))],
+                                    src=[int(s_.idx) for s_ in mc.sources], want_src=want_src,
+                                    load1=sorted(eff.get((7.0, 3.0), [])), want_load1=sorted(blocks[ta] + blocks[tb]),
+                                    load2=sorted(eff.get((11.0, -5.0), [])), want_load2=want_l2)
             # compute_tags on its own
             tin = [rng.choice([None, None, rng.randint(1, 12)]) for _ in range(rng.randint(1, 6))]
             objs = [M.Wire(1, 0, 0, k, 0, 0, k + 1.0, 0.001, tag=t) for k, t in enumerate(tin)]
